@@ -20,6 +20,19 @@ def translate():
 
 
 def validate(run, tier):
+    # the DEFAULT call posterior() trims the weights (ess_trim = 0.99): the samples it returns drop the lowest-weight (tail) particles, which
+    # costs a systematic few per cent of the variance that does not shrink with the particle count (listed finding); measured as the paired
+    # difference to the untrimmed estimate of the same runs
+    res_t = [r for r in ens.run_ensemble("interior", dict(clustering=False), 96, 256, 6100) if r["ok"]]
+    if res_t:
+        dl = np.array([r["var_trim"][1] - r["var"][1] for r in res_t])
+        md, sd = float(np.mean(dl)), float(np.std(dl) / math.sqrt(len(dl)))
+        run.case(key=("default-trimming", 256), nontrivial=True)
+        run.extra["default_trimming_variance_shift_N256"] = [round(md, 4), round(sd, 4)]
+        if abs(md) > 4 * sd and abs(md) > 0.005 * ens.TARGETS["interior"]["var1"]:
+            run.fail("default-trimming-truncation-bias", f"posterior() with its default trimming, 256 particles, {len(res_t)} seeds: variance estimate "
+                     f"{md:+.4f} (se {sd:.4f}) against the untrimmed estimate of the same runs (truth {ens.TARGETS['interior']['var1']:.2f})",
+                     target="interior", n_particles=256, runs=len(res_t), seeds="6100..")
     R = 24 if tier == "quick" else 96
     npart = 64
     cfgs = [dict(clustering=False), dict(clustering=True, sample="rwm", resample="syst")]
@@ -40,6 +53,10 @@ def validate(run, tier):
                 continue
             T = ens.TARGETS[target]
             run.case(key=(target, str(cfg)), nontrivial=True)
+            nm = sum(r.get("logl_mismatch", 0) for r in res)
+            if nm:
+                run.fail("posterior-estimate-biased", f"over {R} seeds: {nm} returned samples carry a log-likelihood that is not the likelihood at the sample "
+                         f"(the importance weights are computed from it)", **what)
             e_m, se_m = ens.stats([r["mean"][1] for r in res], T["mean1"])
             e_v, se_v = ens.stats([r["var"][1] for r in res], T["var1"])
             run.extra.setdefault("ensemble", []).append(dict(target=target, cfg=str(cfg), mean_err=round(e_m, 4), mean_se=round(se_m, 4),
